@@ -59,12 +59,29 @@ def _cases(draw):
         from dataclasses import replace
         prof = replace(prof, id_prefix_with_lexicon=False, id_suffix=False)
     both = draw(st.integers(0, 2)) > 0
-    if both:
-        # an extension may add further forms to a base entry; asked only with base and extension
-        # both selected (whether such a form counts for the base alone is left open, DESIGN 8)
+    if draw(st.integers(0, 3)) > 0:
+        # an extension may add further forms to a base entry: they are found with the extension
+        # in scope and not through the base alone
         from dataclasses import replace
         prof = replace(prof, ext_new_forms=True)
     res = draw(gen.resources(prof, max_lexicons=2))
+    if prof.ext_new_forms and len(res['lexicons']) == 2 and res['lexicons'][1].get('extends'):
+        # the shape is rare when left to chance: make sure the extension gives some base entry
+        # that has no further forms of its own (ranks cannot tie) a new form
+        base, ext = res['lexicons']
+        has = any(e.get('external') and any(not f.get('external') for f in e.get('forms', []))
+                  for e in ext.get('entries', []))
+        cands = [e for e in base.get('entries', []) if not e.get('forms')]
+        if not has and cands:
+            be = cands[0]
+            xe = next((e for e in ext.get('entries', [])
+                       if e.get('external') and e['id'] == be['id']), None)
+            if xe is None:
+                xe = {'id': be['id'], 'external': True}
+                ext.setdefault('entries', []).append(xe)
+            lemma = be['lemma']['writtenForm']
+            xe.setdefault('forms', []).append(
+                {'writtenForm': draw(st.sampled_from([f for f in POOL if f != lemma]))})
     specs = [gen.spec_of(d) for d in res['lexicons']]
     sel = ' '.join(specs) if both else specs[0]
     stored = sorted({f['writtenForm'] for lx in res['lexicons'] for e in lx.get('entries', [])
@@ -117,8 +134,11 @@ def _lemmatizer(cfg, w):
     return None
 
 
-def _matches(entry, forms: set, normalized: bool, all_forms: bool) -> bool:
+def _matches(view, entry, forms: set, normalized: bool, all_forms: bool) -> bool:
+    sc = view.scope(entry.owner)
     for f in entry.forms:
+        if f.owner not in sc:
+            continue        # a form added by an extension that is not in scope
         if not all_forms and f.rank != 0:
             continue
         if f.form in forms:
@@ -136,18 +156,18 @@ def _search(view, kind, cands, normalized, all_forms):
         forms = set(forms)
         if kind == 'words':
             for e in view.entries():
-                if (pos is None or e.pos == pos) and _matches(e, forms, normalized, all_forms):
+                if (pos is None or e.pos == pos) and _matches(view, e, forms, normalized, all_forms):
                     found.add(e.key)
         elif kind == 'senses':
             for s in view.senses():
                 if (pos is None or s.entry.pos == pos) and \
-                        _matches(s.entry, forms, normalized, all_forms):
+                        _matches(view, s.entry, forms, normalized, all_forms):
                     found.add(s.key)
         else:
             for s in view.senses():
                 ss = s.synset
                 if ss.owner in S and (pos is None or ss.pos == pos) and \
-                        _matches(s.entry, forms, normalized, all_forms):
+                        _matches(view, s.entry, forms, normalized, all_forms):
                     found.add(ss.key)
     return found
 
@@ -225,6 +245,8 @@ def _classify(case):
     if any(e.get('external') and any(not f.get('external') for f in e.get('forms', []))
            for lx in case['resource']['lexicons'] for e in lx.get('entries', [])):
         tags.add('extension-adds-form-to-base-entry')
+        tags.add('extension-form:extension-selected' if len(specs) > 1
+                 else 'extension-form:base-alone')
     for cfg in case['configs']:
         tags.add('lem:' + cfg['lemmatizer'])
         tags.add(f'norm:{cfg["normalizer"]}')
@@ -283,6 +305,7 @@ SUBS = [
         budget={'quick': 250, 'thorough': 4000}, sample=_sample,
         fingerprint=lambda c: fingerprint(c),
         require_tags=('exact-hit', 'normalized-column-hit', 'back-off-hit',
-                      'miss-with-near-match', 'lemmatizer-empty-group', 'extension-adds-form-to-base-entry', 'lem:table', 'lem:morphy', 'lem:morphy-init',
+                      'miss-with-near-match', 'lemmatizer-empty-group', 'extension-adds-form-to-base-entry',
+                      'extension-form:extension-selected', 'extension-form:base-alone', 'lem:table', 'lem:morphy', 'lem:morphy-init',
                       'groups-mixed-hit-and-backoff-only', 'selected-lexicons-share-ids')),
 ]
